@@ -28,6 +28,8 @@ REQUIRED = ['grouping_after_layering', 'reslicing_after_grouping', 'repeated_sta
             'scene_without_groups', 'closure_reached', 'refusal_prerequisite_missing',
             'scene_two_heights_group_above_trimodal', 'scene_levels_disagree_ncd_nsc', 'fam:regroup']
 SIZES = {'quick': 160, 'thorough': 3000}
+EXHAUSTIVE = {'quick': 'for every scene whose reachable state graph closed (counter `closed` == `scenes`): all call sequences of ANY length over the 11 operations',
+              'thorough': 'for every scene whose reachable state graph closed (counter `closed` == `scenes`): all call sequences of ANY length over the 11 operations'}
 DEPTH = {'quick': 9, 'thorough': 14}
 MAX_STATES = 300
 LEVELS = obs.WHICH
